@@ -622,6 +622,30 @@ func checkLimits(p *Program, r *Result) {
 		}
 		r.Check(okDec, rd.String(), "precondition:base64.Decode", pos, "len(line) <= ColumnsPerLine and the destination holds DecodedLen(ColumnsPerLine) bytes", "base64 Decode may be called with a destination shorter than DecodedLen(len(line)): it panics on an over-long armored line")
 	}
+	// the same precondition wherever else the library decodes into a buffer of its own
+	armorRead := p.Func(pkgArmor, "armoredReader", "Read")
+	for _, fn := range p.Funcs {
+		if fn.Pkg == nil || !isLibPkg(fn.Pkg.Pkg.Path()) || (armorRead != nil && (fn == armorRead || fn.Parent() == armorRead)) {
+			continue
+		}
+		ftb := p.TB(fn)
+		for i, c := range callsTo(fn, "(*encoding/base64.Encoding).Decode") {
+			dst := c.Common().Args[1]
+			src := c.Common().Args[2]
+			sys := ftb.system(c.(ssa.Instruction))
+			ds, dc, _ := ftb.lenSym(dst)
+			ss, sc, _ := ftb.lenSym(src)
+			ok := false
+			if ds == "0" {
+				k := (dc*4 + 3) / 3 // the longest input whose decoding fits dc bytes
+				ok = sys.implied(ss, "0", k-sc)
+			}
+			if !ok && strings.Contains(ftb.Term(dst).String(), "DecodedLen(len("+ftb.Term(src).String()+"))") {
+				ok = true
+			}
+			r.Check(ok, fn.String(), "precondition:base64.Decode#"+itoa(i), r.pos(c), "the destination holds DecodedLen(len(src)) bytes", "base64 Decode is handed a destination ("+short(ftb.Term(dst).String())+") not known to hold DecodedLen(len(src)) bytes for every input: it panics on an over-long field of a hostile file")
+		}
+	}
 }
 
 // additiveConst: the sum of the integer constants of a tree of additions.
@@ -754,6 +778,15 @@ func writerSide(fn *ssa.Function) bool {
 	if recv := root.Signature.Recv(); recv != nil {
 		switch strings.TrimPrefix(typeString(recv.Type()), "*") {
 		case pkgStream + ".Writer", pkgArmor + ".armoredWriter":
+			return true
+		}
+	}
+	return false
+}
+
+func isLibPkg(path string) bool {
+	for _, l := range libPkgs {
+		if l == path {
 			return true
 		}
 	}
